@@ -287,6 +287,9 @@ M: List[Tuple[str, str, str, str, str]] = [
      "            except ssl.SSLWantWriteError:   # Try again later\n                logger.warning(\n                    'SSLWantWriteError while trying to flush to client, will retry',\n                )\n                return False\n", ""),
     ('c11-cert-cache-by-first-label', 'C11', 'proxy/http/proxy/server.py',
      "        return os.path.join(ca_cert_dir, '%s.pem' % host)", "        return os.path.join(ca_cert_dir, '%s.pem' % host.split('.')[-1])"),
+    ('c11-generation-lock-leaked-on-failure', 'C11', 'proxy/http/proxy/server.py',
+     "        with self.lock:\n            if not os.path.isfile(cert_file_path):\n                self.gen_ca_signed_certificate(cert_file_path, certificate)\n",
+     "        self.lock.acquire()\n        if not os.path.isfile(cert_file_path):\n            self.gen_ca_signed_certificate(cert_file_path, certificate)\n        self.lock.release()\n"),
     # ---- endless loops (C06 / C05) -------------------------------------------------
     ('c06-revert-duplicate-content-length-fix', 'C06', 'proxy/http/parser/parser.py',
      "        if k == b'content-length':\n            # The last Content-Length line wins in self.headers,\n            # keep the flag in line with the value that will be used.\n            self._content_expected = int(value) > 0",
